@@ -26,7 +26,7 @@ def gfa_text(segs, links):
     return "\n".join(lines) + "\n"
 
 
-def make_records(segs, walks, rnd):
+def make_records(segs, walks, rnd, blank_names=False):
     lines = []
     for wi, w in enumerate(sorted(map(lambda w: [tuple(x) for x in w], walks))):
         plen = sum(segs[nid(k)]["ln"] for _, k in w)
@@ -42,6 +42,8 @@ def make_records(segs, walks, rnd):
             uni = "\u00e9" if wi % 3 == 1 else ""
             tail = "\tzd:Z:a\u00f1b" if wi % 3 == 2 else ""
             pre = ["q", "q", "@q", "#q", "7"][wi % 5]          # read names are free text (FASTQ-style '@', '#', leading digit)
+            if blank_names and wi % 4 == 1:                     # GraphAligner keeps the FASTQ comment: a blank inside column 1 (index only:
+                pre = "run7 ch=5 " + pre                        # re-emitting commands cut the name at the blank)
             lines.append(f"{pre}{wi}{uni}_{ps}_{pe}\t{L + 2}\t1\t{L + 1}\t+\t{path}\t{plen}\t{ps}\t{pe}\t{a}\t{L}\t{(ps * 7 + pe) % 61}\ttp:A:P\tcg:Z:{cg}\tNM:i:3{tail}")
     rnd.shuffle(lines)
     return lines
@@ -85,7 +87,7 @@ def index_projection(gvi, gaf, lines, bgzf):
                     try:
                         a = reader.read_line(off)
                         f = l.split("\t")
-                        ok = ok and a is not None and a.query_name == f[0] and a.path == f[5] and a.path_start == int(f[7])
+                        ok = ok and a is not None and a.query_name == f[0].split(" ")[0] and a.path == f[5] and a.path_start == int(f[7])      # (the parser cuts the name at the first blank)
                     except Exception:  # noqa
                         ok = False
             out.append({"node": key[0], "key": list(key), "recs": recs, "readline_ok": ok})
@@ -111,7 +113,7 @@ def run_session(job):
                 g["ln"] *= scale
         gfa = os.path.join(d, "g.gfa" + (".gz" if gfa_gz else ""))
         write_text(gfa, gfa_text(segs, st["links"]), "gz" if gfa_gz else "plain")
-        ulines = make_records(segs, st["walks"], rnd)
+        ulines = make_records(segs, st["walks"], rnd, blank_names=(mode == "C03"))
         ext = ".gz" if bgzf else ""
         U = os.path.join(d, "u.gaf" + ext)
         write_text(U, join_lines(ulines, sid), storage, block=opts.get("block", 300))
@@ -219,6 +221,11 @@ def run_session(job):
                             break
                     for _ in range(0 if c.get("truncated") else opts.get("pairs", 8)):
                         pr = [rnd.choice(regs), rnd.choice(regs)]
+                        stt, pos = view([x for g in pr for x in ("-r", f"{g['ctg']}:{g['a']}-{g['b']}")], lines)
+                        qs.append({"regs": pr, "fmt": "", "status": stt, "pos": pos})
+                    for _ in range(0 if c.get("truncated") else 3):      # the same region twice, then (or between) other ones
+                        a_, b_ = rnd.choice(regs), rnd.choice(regs)
+                        pr = rnd.choice([[a_, a_, b_], [a_, b_, b_, rnd.choice(regs)], [a_, a_, a_]])
                         stt, pos = view([x for g in pr for x in ("-r", f"{g['ctg']}:{g['a']}-{g['b']}")], lines)
                         qs.append({"regs": pr, "fmt": "", "status": stt, "pos": pos})
                     if conv is not None and len(conv) == len(lines) and not c.get("truncated"):
